@@ -181,15 +181,15 @@ func vNearest(num string) float64 {
 // names
 
 var (
-	vEdgeASCII   = []rune("abcdefghijklmnopqrstuvwxyzABCDEFGHIJKLMNOPQRSTUVWXYZ")
-	vEdgeDigits  = []rune("0123456789")
-	vEdgeCyr     = []rune("абвгдежзийклмнопрстуфхцчшщъьюяАБВРСТЩЯЁёї")
-	vEdgeGreek   = []rune("αβγδεζηθλμπσφωΩΠΣΦΑ")
-	vEdgeCJK     = []rune("米飯麺茶水魚肉卵豆腐한글かな")
-	vEdgeLatin   = []rune("éèêëàâäôöùûüçñßøåÉÖÀÐÿµªºþ")
-	vEdgeOther   = []rune("אבגשעبتثकखगกขด")
-	vInnerWild   = []string{" ", "  ", "/", ".", "_", "'", "(", ")", "%", "+", "&", ",", "\"", ":", "-", "#", "=", ", ", ": ", " - ", " #", "\\", "\": ", "\\ ", "…", "’", "‘", " 2 #", " 12 #", "\t", "\t "}
-	vInnerTame   = []string{" ", "/", ".", "_", "-", "'", "&", "+", "%", "(", ")", ",", "<", ">", ";", "…", "  ", "’", "‘"}
+	vEdgeASCII  = []rune("abcdefghijklmnopqrstuvwxyzABCDEFGHIJKLMNOPQRSTUVWXYZ")
+	vEdgeDigits = []rune("0123456789")
+	vEdgeCyr    = []rune("абвгдежзийклмнопрстуфхцчшщъьюяАБВРСТЩЯЁёї")
+	vEdgeGreek  = []rune("αβγδεζηθλμπσφωΩΠΣΦΑ")
+	vEdgeCJK    = []rune("米飯麺茶水魚肉卵豆腐한글かな")
+	vEdgeLatin  = []rune("éèêëàâäôöùûüçñßøåÉÖÀÐÿµªºþ")
+	vEdgeOther  = []rune("אבגשעبتثकखगกขด")
+	vInnerWild  = []string{" ", "  ", "/", ".", "_", "'", "(", ")", "%", "+", "&", ",", "\"", ":", "-", "#", "=", ", ", ": ", " - ", " #", "\\", "\": ", "\\ ", "…", "’", "‘", " 2 #", " 12 #", "\t", "\t "}
+	vInnerTame  = []string{" ", "/", ".", "_", "-", "'", "&", "+", "%", "(", ")", ",", "<", ">", ";", "…", "  ", "’", "‘"}
 	// the top of the basic plane (lead byte EF: halfwidth and fullwidth forms, compatibility ideographs, ligatures,
 	// private use) and characters beyond it (four bytes)
 	vEdgeHigh    = []rune("ｶﾛﾘｰＡｚ１豈ﬁ\uE000\uF8FF\uFFFD𝒳🍎𠀋")
